@@ -47,14 +47,8 @@ package data
 // varint/length: n < 0; wrong wire type for the field) or in the two documented semantic checks
 // (block sizes given twice, field 4; mode range, field 7) -- in particular never because of the
 // VALUE of the type, size, hash or fanout fields (an unknown type is reported by reification).
-//@ at call github.com/ipld/go-ipld-prime/fluent/qp.MapEntry#1 assert wire-number-1-is-DataType: fieldNum == 1 && callee_k == "DataType" && wireType == 0
-//@ at call github.com/ipld/go-ipld-prime/fluent/qp.MapEntry#2 assert wire-number-2-is-Data: fieldNum == 2 && callee_k == "Data" && wireType == 2
-//@ at call github.com/ipld/go-ipld-prime/fluent/qp.MapEntry#3 assert wire-number-3-is-FileSize: fieldNum == 3 && callee_k == "FileSize" && wireType == 0
-//@ at call github.com/ipld/go-ipld-prime/fluent/qp.MapEntry#4 assert wire-number-4-is-BlockSizes: fieldNum == 4 && callee_k == "BlockSizes"
-//@ at call github.com/ipld/go-ipld-prime/fluent/qp.MapEntry#5 assert wire-number-5-is-HashType: fieldNum == 5 && callee_k == "HashType" && wireType == 0
-//@ at call github.com/ipld/go-ipld-prime/fluent/qp.MapEntry#6 assert wire-number-6-is-Fanout: fieldNum == 6 && callee_k == "Fanout" && wireType == 0
-//@ at call github.com/ipld/go-ipld-prime/fluent/qp.MapEntry#7 assert wire-number-7-is-Mode: fieldNum == 7 && callee_k == "Mode" && wireType == 0
-//@ at call github.com/ipld/go-ipld-prime/fluent/qp.MapEntry#8 assert wire-number-8-is-Mtime: fieldNum == 8 && callee_k == "Mtime" && wireType == 2
+//@ at call github.com/ipld/go-ipld-prime/fluent/qp.MapEntry#0 assert every-entry-is-the-schema-field-of-the-wire-number-read-with-its-wire-type: (callee_k == "DataType" && fieldNum == 1 && wireType == 0) || (callee_k == "Data" && fieldNum == 2 && wireType == 2) || (callee_k == "FileSize" && fieldNum == 3 && wireType == 0) || (callee_k == "HashType" && fieldNum == 5 && wireType == 0) || (callee_k == "Fanout" && fieldNum == 6 && wireType == 0) || (callee_k == "Mode" && fieldNum == 7 && wireType == 0) || (callee_k == "Mtime" && fieldNum == 8 && wireType == 2) || callee_k == "BlockSizes"
+//@ at call github.com/ipld/go-ipld-prime/fluent/qp.MapEntry#0 assert wire-number-4-is-BlockSizes: fieldNum == 4 ==> callee_k == "BlockSizes"
 //@ at call github.com/ipld/go-ipld-prime/fluent/qp.Int#1 assert dataType-is-the-varint-read: callee_i == int64(dataType)
 //@ at call github.com/ipld/go-ipld-prime/fluent/qp.Int#2 assert fileSize-is-the-varint-read: callee_i == int64(fileSize)
 //@ at call github.com/ipld/go-ipld-prime/fluent/qp.Int#3 assert blockSize-is-the-varint-read: callee_i == int64(blockSize)
@@ -68,8 +62,7 @@ package data
 //@ loop 0 decreases len(remaining)
 //@ forbids errors.New fmt.Errorf
 //@ at return assert a-field-is-rejected-only-for-a-wire-level-reason: err != nil ==> n < 0 || (fieldNum == 1 && wireType != 0) || (fieldNum == 2 && wireType != 5)
-//@ at call github.com/ipld/go-ipld-prime/fluent/qp.MapEntry#1 assert wire-number-1-is-Seconds: fieldNum == 1 && callee_k == "Seconds" && wireType == 0
-//@ at call github.com/ipld/go-ipld-prime/fluent/qp.MapEntry#2 assert wire-number-2-is-FractionalNanoseconds: fieldNum == 2 && callee_k == "FractionalNanoseconds" && wireType == 5
+//@ at call github.com/ipld/go-ipld-prime/fluent/qp.MapEntry#0 assert every-entry-is-the-schema-field-of-the-wire-number-read-with-its-wire-type: (callee_k == "Seconds" && fieldNum == 1 && wireType == 0) || (callee_k == "FractionalNanoseconds" && fieldNum == 2 && wireType == 5)
 //@ at call github.com/ipld/go-ipld-prime/fluent/qp.Int#1 assert seconds-is-the-varint-read: callee_i == int64(seconds)
 //@ at call github.com/ipld/go-ipld-prime/fluent/qp.Int#2 assert nanoseconds-is-the-fixed32-read: callee_i == int64(fractionalNanoseconds) && 0 <= callee_i && callee_i <= 4294967295
 //@ func data.consumeUnixFSMetadata
